@@ -827,10 +827,11 @@ class LTLayoutContainer(LTContainer[LTComponent]):
         distances to other objects & groups are added to the process queue.
 
         For performance reason, pair-wise distances and object pair info are
-        maintained in a heap of (idx, dist, id(obj1), id(obj2), obj1, obj2)
+        maintained in a heap of (idx, dist, seq(obj1), seq(obj2), obj1, obj2)
         tuples. It ensures quick access to the smallest element. Note that
         since comparison operators, e.g., __lt__, are disabled for
-        LTComponent, id(obj) has to appear before obj in element tuples.
+        LTComponent, a unique sequence number has to appear before obj in
+        element tuples.
 
         :param laparams: LAParams object.
         :param boxes: All textbox objects to be grouped.
@@ -870,12 +871,17 @@ class LTLayoutContainer(LTContainer[LTComponent]):
             objs = set(plane.find((x0, y0, x1, y1)))
             return objs.difference((obj1, obj2))
 
+        # Sequence numbers stand in for id(obj) in the heap elements: they
+        # break ties between equal distances in a way that depends on the
+        # input only, not on where the objects happen to live in memory.
+        seq: Dict[ElementT, int] = {box: i for (i, box) in enumerate(boxes)}
+
         dists: List[Tuple[bool, float, int, int, ElementT, ElementT]] = []
         for i in range(len(boxes)):
             box1 = boxes[i]
             for j in range(i + 1, len(boxes)):
                 box2 = boxes[j]
-                dists.append((False, dist(box1, box2), id(box1), id(box2), box1, box2))
+                dists.append((False, dist(box1, box2), i, j, box1, box2))
         heapq.heapify(dists)
 
         plane.extend(boxes)
@@ -898,10 +904,11 @@ class LTLayoutContainer(LTContainer[LTComponent]):
                 plane.remove(obj2)
                 done.update([id1, id2])
 
+                seq[group] = len(seq)
                 for other in plane:
                     heapq.heappush(
                         dists,
-                        (False, dist(group, other), id(group), id(other), group, other),
+                        (False, dist(group, other), seq[group], seq[other], group, other),
                     )
                 plane.add(group)
         # By now only groups are in the plane
